@@ -9,7 +9,7 @@
    documented rules on the interpreter; they are tests of the definition, not theorems about
    the compiler (see DESIGN.md for what is and is not proved). *)
 From Coq Require Import List ZArith Bool String.
-From Ugo Require Import Comp.SymTab Comp.SlotProofs Sem.Sem.
+From Ugo Require Import Base.Res Value.PValue Value.Ops Comp.SymTab Comp.SlotProofs Sem.Sem Sem.SemOps ExprComp.ExprComp ExprComp.ExprCompProofs.
 Import ListNotations.
 Local Open Scope string_scope.
 
@@ -22,6 +22,32 @@ Theorem C02_live_locals_distinct : forall ops,
     s_index sym1 = s_index sym2 -> List.length r1 = List.length r2 /\ n1 = n2.
 Proof. exact live_locals_distinct. Qed.
 Print Assumptions C02_live_locals_distinct.
+
+(* Compiler correctness for the expression fragment (constants, locals, every binary and unary
+   operator, == / !=, short-circuit && / ||, the conditional expression): the code which the
+   compiler model emits for e at any byte position, embedded in any surrounding code, run by the
+   machine model from any stack, pushes exactly the source-level value of e and stops right after
+   the code; an operator error is thrown as the same error.  The compiler model is compared with
+   the real compiler instruction by instruction (positions, operands, jump targets) and the
+   machine model with the real VM on every run of the check.  Operators are those of the operator
+   model of C15. *)
+Theorem C02_expr_compile_correct : forall consts locals e pre post st,
+  runs consts locals (pre ++ xcompile (xcsize pre) e ++ post) (xcsize pre) e st.
+Proof. exact compile_correct. Qed.
+Print Assumptions C02_expr_compile_correct.
+
+(* the interpreter's operators on the values of its fragment are those of the operator model *)
+Theorem C02_sem_operators_agree : forall op t x y r,
+  tok_of op = Some t -> sem_binop op (VInt x) (VInt y) = Some r ->
+  exists p, pv r = Some p /\ binop t (PInt x) (PInt y) = Ok p.
+Proof. exact sem_binop_int_agrees. Qed.
+Print Assumptions C02_sem_operators_agree.
+
+Example C02_expr_example :
+  let e := XCond (XBin TLess (XLocal 0) (XConst 0)) (XAnd (XLocal 1) (XConst 1)) (XUn TSub (XLocal 0)) in
+  xceval [PInt 5; PInt 7] [PInt 3; PInt 0] e = Ok (PInt 0) /\
+  xmrun 100 [PInt 5; PInt 7] [PInt 3; PInt 0] (xcompile 0 e) (xcsize (xcompile 0 e)) (XRunning 0 []) = XRunning 31 [PInt 0].
+Proof. vm_compute. split; reflexivity. Qed.
 
 (* non-vacuity: slots are re-used by sibling blocks and distinct in nested ones *)
 Example C02_slot_reuse :
